@@ -1,4 +1,5 @@
 """C19 - an entry behaves like an insertion-ordered mapping of its fields; equality of fields/blocks is structural."""
+from props import pubapi
 import itertools
 import json
 
@@ -1707,24 +1708,24 @@ def perturb_block(b, p, pos):
     if p == "rebuild":
         return c, True
     if p == "meta_reorder":
-        c._parser_metadata["zz1"] = 1
-        c._parser_metadata["zz2"] = "t"
+        pubapi.get_backing(c, "block.parser_metadata")["zz1"] = 1
+        pubapi.get_backing(c, "block.parser_metadata")["zz2"] = "t"
         b2 = copy.deepcopy(b)
-        b2._parser_metadata["zz2"] = "t"
-        b2._parser_metadata["zz1"] = 1
+        pubapi.get_backing(b2, "block.parser_metadata")["zz2"] = "t"
+        pubapi.get_backing(b2, "block.parser_metadata")["zz1"] = 1
         return (c, b2), True
     if p == "start_line":
-        c._start_line_in_file = (b.start_line or 0) + 1
+        pubapi.set_backing(c, "block.start_line", (b.start_line or 0) + 1)
     elif p == "start_line_none":
         if b.start_line is None:
             return None
-        c._start_line_in_file = None
+        pubapi.set_backing(c, "block.start_line", None)
     elif p == "raw":
-        c._raw = (b.raw or "") + " "
+        pubapi.set_backing(c, "block.raw", (b.raw or "") + " ")
     elif p == "raw_none":
         if b.raw is None:
             return None
-        c._raw = None
+        pubapi.set_backing(c, "block.raw", None)
     elif p == "meta_add":
         c.set_parser_metadata("extra", "1")
     elif p == "meta_value":
@@ -1735,7 +1736,7 @@ def perturb_block(b, p, pos):
     elif p == "meta_drop":
         if not b.parser_metadata:
             return None
-        del c._parser_metadata[list(b.parser_metadata)[0]]
+        del pubapi.get_backing(c, "block.parser_metadata")[list(b.parser_metadata)[0]]
     elif p == "key":
         if cls not in ("Entry", "String"):
             return None
@@ -1766,7 +1767,7 @@ def perturb_block(b, p, pos):
             c = M.ExplicitComment(b.comment, b.start_line, b.raw)
         else:
             return None
-        c._parser_metadata = copy.deepcopy(b.parser_metadata)
+        pubapi.set_backing(c, "block.parser_metadata", copy.deepcopy(b.parser_metadata))
     elif p.startswith("field"):
         if cls != "Entry":
             return None
@@ -1868,9 +1869,9 @@ def impl_eq(case):
                 elif p == "value":
                     b.value = [a.value, "x"]
                 elif p == "line":
-                    b._start_line = ln + 1
+                    pubapi.set_backing(b, "field.start_line", ln + 1)
                 elif p == "line_none":
-                    b._start_line = None
+                    pubapi.set_backing(b, "field.start_line", None)
         sx_in = [21, 1, enc.enc_field(a), enc.enc_field(b)]
         modelled = value_modelled(a.value) and value_modelled(b.value)
     r = implutil.guarded(lambda: (a == b, b == a, a != b, a == a))
